@@ -106,22 +106,23 @@ func eqAnyOrder(got []any, want []any) bool {
 		return false
 	}
 	if len(got) > 5 {
-		// greedy matching (content equality is an equivalence relation); each
-		// comparison is a branch instead of a term of an n!-way disjunction
-		used := make([]bool, len(want))
-		for _, g := range got {
-			found := false
-			for j := range want {
-				if !used[j] && verif.Eq(g, want[j]) {
-					used[j], found = true, true
-					break
-				}
+		// multiset equality by counting, as one formula (no n! disjunction and
+		// no branching): every element occurs equally often on both sides
+		var conds []bool
+		count := func(e any, in []any) float64 {
+			c := float64(0)
+			for _, o := range in {
+				c += verif.IteF64(verif.Eq(e, o), 1, 0)
 			}
-			if !found {
-				return false
-			}
+			return c
 		}
-		return true
+		for _, g := range got {
+			conds = append(conds, count(g, got) == count(g, want))
+		}
+		for _, w := range want {
+			conds = append(conds, count(w, got) == count(w, want))
+		}
+		return verif.All(conds...)
 	}
 	var alts []bool
 	var rec func(k int)
